@@ -1015,6 +1015,7 @@ def case_chain(p, ctx):
     chain_seen, chain_jac = set(), set()  # points requested / linearised since the chain's cache was created (full cache)
     members_at = None  # point of the last request that really executed the members (None: unknown or a perturbed point)
     perturbed = False  # perturbed points of an approximated Jacobian were executed (and may sit in the caches)
+    tainted = False  # an execution was served by such a perturbed point within a tolerance (same class as C05-F6; thorough tier, seed 5)
     flags = Counter()
     pool = []
     for pt in p["pool"]:
@@ -1060,6 +1061,10 @@ def case_chain(p, ctx):
                 ctx.check(n in got and osame(got[n], ref[n]), "chain_outputs", f"cached chain returned {n}={got.get(n)!r} at x={x.tolist()}, reference {ref[n]!r}",
                           subs=p["subs"], chain_cache=type(chain.cache).__name__, chain_tolerance=float(chain.cache.tolerance))
             flags["execute"] += 1
+            if perturbed and max([*(float(d.cache.tolerance) for d in subs), float(chain.cache.tolerance)]) >= 1e-7:
+                # a perturbed point of an earlier approximation answered for x within the tolerance: the entries stored by
+                # this execution hold its outputs under the key x and outlive a later reduction of the tolerances
+                tainted = True
             if not chain_hit:
                 members_at = key
             chain_seen.add(key)
@@ -1078,7 +1083,7 @@ def case_chain(p, ctx):
             flags["analytic_jacobian_after_chain_cache_hit_with_members_elsewhere"] += 1
             if ctx.known(F5):
                 continue
-        if fd and perturbed and max([*sub_tols, float(chain.cache.tolerance)]) >= 1e-7:
+        if fd and perturbed and (tainted or max([*sub_tols, float(chain.cache.tolerance)]) >= 1e-7):
             # the base value f(x) of the finite difference is served by entries stored under the tolerance, where a perturbed
             # point of an earlier approximation (x + 1e-7) answers for x: the error of the base value is of the order of the
             # step and the Jacobian is that of no input (known finding C05-F6)
